@@ -250,6 +250,47 @@ theorem eq_spec {α} [BEq α] [LawfulBEq α] (t u : Tensor α) :
     eq t u = true ↔ t.dims = u.dims ∧ t.data = u.data := by
   simp [eq]
 
+/-- `Clone` (derived) has value semantics: the clone has the same shape and the same elements in the same
+    order, compares equal to the original, and every access — valid or not — behaves as on the original. -/
+theorem clone_spec {α} [BEq α] [LawfulBEq α] (t : Tensor α) :
+    clone t = t ∧ (clone t).dims = t.dims ∧ iter (clone t) = iter t ∧ eq (clone t) t = true ∧
+    (∀ idx, getIndex (clone t).dims idx = getIndex t.dims idx ∧ index (clone t) idx = index t idx) ∧
+    (∀ idx v, setAt (clone t) idx v = setAt t idx v) ∧ (WF t → WF (clone t)) :=
+  ⟨rfl, rfl, rfl, by simp [clone, eq], fun _ => ⟨rfl, rfl⟩, fun _ _ => rfl, fun h => h⟩
+
+/-- `clone_from` (the trait's default, `*self = source.clone()`): **whatever `self` was before** — another shape
+    with the same number of elements (`2×3 ← 3×2`), another number of elements, the same shape — afterwards it is
+    `source`: the shape is the source's, `==` holds, `iter` gives the source's elements, every valid index of the
+    source reads the source's element at its row-major offset, and every index out of range for the *source's*
+    shape panics. -/
+theorem cloneFrom_spec {α} [BEq α] [LawfulBEq α] (self source : Tensor α) :
+    cloneFrom self source = source ∧ (cloneFrom self source).dims = source.dims ∧
+    iter (cloneFrom self source) = iter source ∧ eq (cloneFrom self source) source = true ∧
+    (∀ idx v, setAt (cloneFrom self source) idx v = setAt source idx v) ∧
+    (WF source → WF (cloneFrom self source) ∧
+      ∀ idx, InRange source.dims idx →
+        ∃ a, source.data[flat source.dims idx]? = some a ∧ index (cloneFrom self source) idx = .ok a) ∧
+    (∀ idx, idx.length = source.dims.length → SomeOob source.dims idx →
+        index (cloneFrom self source) idx = .error .assert) :=
+  ⟨rfl, rfl, rfl, by simp [cloneFrom, clone, eq], fun _ _ => rfl,
+   fun h => ⟨h, fun idx hi => index_ok source idx h hi⟩,
+   fun idx hl ho => Rlib.Tensor.index_oob source idx hl ho⟩
+
+/-- `dim(i)` is the `i`-th extent, and a panic (array index) for `i ≥ D`. -/
+theorem dim_spec {α} (t : Tensor α) (i : Nat) :
+    (∀ h : i < t.dims.length, dim t i = .ok t.dims[i]) ∧ (t.dims.length ≤ i → dim t i = .error .index) := by
+  refine ⟨fun h => ?_, fun h => ?_⟩
+  · simp [dim, h]
+  · simp [dim, h]
+
+/-- Histories over several tensor variables (`from_vec`, `clone`, `clone_from`, `==`, `dims`, `dim`, `get_index`,
+    `t[idx]`, `t[idx] = v`, `iter`, `Writable::write`, in any order, starting from nothing): what the model shows at
+    every step — panics seen as "a panic" — is what the specification says (`stepSpec`: a variable holds a shape and
+    the elements in row-major order, `clone`/`clone_from` copy both, indexing is `InRange`/`flat`, output is
+    `specPieces`).  This is the `M`/`V` = `S` identity of the driver's `h` cases. -/
+theorem hist_spec (ops : List HOp) : (runModel ops).map Obs.view = runSpec ops :=
+  runWith_spec ops HState.empty HWF_empty
+
 /-! ### Non-vacuity and documentation examples -/
 
 /-- a valid index of a rank-3 shape -/
@@ -293,6 +334,27 @@ example := write_read_i64 ⟨[2, 2], [-9223372036854775808, 0, -1, 9223372036854
 example := write_read_str ⟨[2], ["ab", "c"]⟩ ⟨by decide, by decide⟩ (by decide)
 example : sepCount [2, 2, 3] 6 = 2 ∧ trailingZeros (unflat [2, 2, 3] 6) = 2 := by decide
 example := sep_trailing_zeros [2, 2, 3] 6 (by decide) (by decide)
+/-- value semantics of `clone` on a `2×3` tensor -/
+example := clone_spec (⟨[2, 3], [1, 2, 3, 4, 5, 6]⟩ : Tensor Int)
+/-- the seeded C19_m5 situation: a `2×3` tensor is overwritten by `clone_from` of a `3×2` tensor with the same
+    number of elements: afterwards `[2,1]` (valid for `3×2` only) reads element 5 and `[0,2]` (valid for `2×3` only) panics -/
+example : index (cloneFrom (⟨[2, 3], [9, 9, 9, 9, 9, 9]⟩ : Tensor Int) ⟨[3, 2], [0, 1, 2, 3, 4, 5]⟩) [2, 1] = .ok 5 ∧
+    index (cloneFrom (⟨[2, 3], [9, 9, 9, 9, 9, 9]⟩ : Tensor Int) ⟨[3, 2], [0, 1, 2, 3, 4, 5]⟩) [0, 2] = .error .assert :=
+  ⟨by
+    obtain ⟨a, h1, h2⟩ := ((cloneFrom_spec (⟨[2, 3], [9, 9, 9, 9, 9, 9]⟩ : Tensor Int) ⟨[3, 2], [0, 1, 2, 3, 4, 5]⟩).2.2.2.2.2.1
+      ⟨by decide, by decide⟩).2 [2, 1] (by decide)
+    rw [h2]; simp [flat, prod] at h1; rw [h1],
+   (cloneFrom_spec (⟨[2, 3], [9, 9, 9, 9, 9, 9]⟩ : Tensor Int) ⟨[3, 2], [0, 1, 2, 3, 4, 5]⟩).2.2.2.2.2.2 [0, 2] rfl
+     (by simp [SomeOob])⟩
+example : dim (⟨[2, 3], [1, 2, 3, 4, 5, 6]⟩ : Tensor Int) 1 = .ok 3 ∧ dim (⟨[2, 3], [1, 2, 3, 4, 5, 6]⟩ : Tensor Int) 2 = .error .index :=
+  ⟨(dim_spec _ 1).1 (by decide), (dim_spec _ 2).2 (by decide)⟩
+/-- a history: `a = 2×3`, `b = 3×2`, `a.clone_from(&b)`, then shape, `==`, a read valid only for `3×2`, a `get_index`
+    valid only for `2×3`, a write, and the source is unchanged -/
+example : runSpec [.mk 0 [2, 3] 100, .mk 1 [3, 2] 0, .cf 0 1, .dims 0, .eq 0 1, .rd 0 [2, 1], .get 0 [0, 2],
+      .wr 0 [1, 1] 7, .it 1, .eq 0 1, .dim 0 2] =
+    [.done, .done, .done, .nats [3, 2], .bool true, .int 5, .panic none,
+      .ints [0, 1, 2, 7, 4, 5], .ints [0, 1, 2, 3, 4, 5], .bool false, .panic none] := by decide
+example := hist_spec [.mk 0 [2, 3] 100, .mk 1 [3, 2] 0, .cf 0 1, .dims 0, .eq 0 1, .rd 0 [2, 1], .get 0 [0, 2], .w 0]
 /-- rank 0: one element, offset 0, no separator -/
 example : getIndex [] [] = .ok 0 ∧ specPieces [] [(7 : Nat)] = [.elem 7] := ⟨rfl, rfl⟩
 /-- F8, the behaviour before the fix: data-only equality cannot tell a `2×3` from a `3×2` tensor;
